@@ -497,3 +497,45 @@ Proof.
   rewrite map_rev, G. clear G. induction ps as [|p r IH]; [reflexivity|].
   simpl. rewrite flat_map_app, rev_app_distr, IH. simpl. reflexivity.
 Qed.
+
+Lemma insert_rows_seq_mono b txid ins eff ds : forall ms seq ms1 newr seq',
+  insert_rows b ms seq txid ins eff ds = (ms1, newr, seq') -> seq <= seq'.
+Proof.
+  induction ds as [|d r IH]; intros ms seq ms1 newr seq' H; cbn [insert_rows] in H.
+  - inversion H; subst. lia.
+  - match type of H with context [insert_rows ?b0 ?m0 ?s0 ?t0 ?i0 ?e0 r] =>
+      destruct (insert_rows b0 m0 s0 t0 i0 e0 r) as [[ms' nr] sq] eqn:E end.
+    inversion H; subst. specialize (IH _ _ _ _ _ E). lia.
+Qed.
+
+Lemma mv_rel_seq_mono f s s' : mv_rel f s s' -> s_next_seq s <= s_next_seq s'.
+Proof.
+  intros [[_ B]|(_ & txid & ins & eff & ds & newr & E)]; [exact B|].
+  unfold insert_moves in E. destruct (insert_rows _ _ _ _ _ _ _) as [[ms1 nr] sq] eqn:E1. inversion E; subst.
+  eapply insert_rows_seq_mono; exact E1.
+Qed.
+
+Lemma step_mv_rel f now s o s' r : step f now s o = SR s' r -> mv_rel f s s'.
+Proof.
+  intros H. unfold step in H.
+  destruct (find_ik (s_logs s) (o_ik o)) as [l|].
+  - destruct (input_eq_dec (l_input l) (o_in o)); inversion H; subst; apply mv_rel_refl.
+  - pose proof (run_input_mv_rel f now s (o_in o)) as HR.
+    destruct (run_input f now s (o_in o)) as [s1 p|s1 e|]; cbn [outcome_state] in *; [| |discriminate].
+    + pose proof (mv_rel_seq_mono _ _ _ HR) as Hm.
+      destruct (o_dry o); inversion H; subst.
+      * left. cbn. split; [reflexivity | exact Hm].
+      * eapply mv_rel_then_same; [exact HR | reflexivity | reflexivity].
+    + pose proof (mv_rel_seq_mono _ _ _ HR) as Hm. inversion H; subst. left. cbn. split; [reflexivity | exact Hm].
+Qed.
+
+Theorem run_moves_off f h : f_moves f = false -> s_moves (run f h) = [].
+Proof.
+  intros Fm. unfold run.
+  assert (G : forall s, s_moves s = [] ->
+     s_moves (fold_left (fun s no => match step f (fst no) s (snd no) with SR s' _ => s' | SPanic => s end) h s) = []).
+  { induction h as [|[now o] r IH]; intros s Hs; simpl; [exact Hs|].
+    apply IH. destruct (step f now s o) as [s' res|] eqn:E; [|exact Hs].
+    destruct (step_mv_rel _ _ _ _ _ _ E) as [[A _]|(Fm' & _)]; [rewrite A; exact Hs | congruence]. }
+  apply G. reflexivity.
+Qed.
